@@ -7,9 +7,10 @@ covered = {
  "x/crosschain/types/tx.pb.go": {"MsgUpdateParams", "MsgUpdateChainOracles"},
  "x/erc20/types/tx.pb.go": {"MsgUpdateParams", "MsgRegisterCoin", "MsgRegisterERC20", "MsgToggleTokenConversion", "MsgUpdateDenomAlias"},
  "x/gov/types/tx.pb.go": {"MsgUpdateStore", "MsgUpdateSwitchParams", "MsgUpdateCustomParams"},
+ "x/evm/types/tx.pb.go": {"MsgCallContract"},
 }
 # reviewed but not encodable (stated as outside the claim)
-outside = {"x/evm/types/tx.pb.go": {"MsgCallContract"}}
+outside = {}
 found = {}
 for f in sorted(glob.glob('/repo/x/*/types/*.pb.go') + glob.glob('/repo/x/*/*/types/*.pb.go')):
     s = open(f).read()
